@@ -218,4 +218,30 @@ theorem C08_pool_perm (fetch : Bytes → Res (Option Bytes)) (ix ix1 ix2 : Instr
   refine ⟨rfl, ?_⟩
   rw [e1, e2, List.map_append, List.map_append, k1, k2]
 
+/-! Non-vacuity: a concrete scenario — a stored list of two fixed-key configs, the first of which
+    repeats a key that the instruction already holds read-only (so it is de-escalated). -/
+def exK (b : UInt8) : Bytes := List.replicate 32 b
+def exT : Bytes := [1, 1, 1, 1, 1, 1, 1, 1]
+def exStored : Bytes := (init (zeros 100) exT [⟨0, exK 7, 1, 1⟩, ⟨0, exK 9, 0, 1⟩]).1
+def exPda (mats : List Bytes) (_ : Bytes) : Option Bytes := mats.head?
+def exIx : Instruction := ⟨exK 3, [⟨exK 7, false, false⟩, ⟨exK 8, true, true⟩], [5, 5]⟩
+def exInfos : List Info := [⟨exK 7, false, false, [1]⟩, ⟨exK 8, true, true, []⟩]
+def exPool : List Info := [⟨exK 9, false, true, [2, 2]⟩, ⟨exK 7, false, false, [1]⟩]
+def exFetch (k : Bytes) : Res (Option Bytes) :=
+  if k = exK 7 then .ok (some [1]) else if k = exK 8 then .ok (some []) else if k = exK 9 then .ok (some [2, 2]) else .ok none
+
+/-- the precondition of the agreement theorems is satisfiable … -/
+example : Mirror exIx exInfos ∧ Consistent exFetch exInfos exPool := by
+  constructor
+  · unfold Mirror; decide
+  · unfold Consistent; decide
+set_option maxRecDepth 20000 in
+/-- … on a scenario where both helpers succeed, the colliding key is appended read-only and the pool is out of order -/
+example : addToCpi exPda exIx exInfos exStored exT exPool =
+    .ok (⟨exK 3, [⟨exK 7, false, false⟩, ⟨exK 8, true, true⟩, ⟨exK 7, false, false⟩, ⟨exK 9, false, true⟩], [5, 5]⟩,
+         exInfos ++ [⟨exK 7, false, false, [1]⟩, ⟨exK 9, false, true, [2, 2]⟩]) := by decide
+set_option maxRecDepth 20000 in
+example : addToInstruction exPda exFetch exIx exStored exT =
+    .ok ⟨exK 3, [⟨exK 7, false, false⟩, ⟨exK 8, true, true⟩, ⟨exK 7, false, false⟩, ⟨exK 9, false, true⟩], [5, 5]⟩ := by decide
+
 end C08
